@@ -831,7 +831,9 @@ impl RunCtx {
             }
         }
         let mut cmd = std::process::Command::new("cargo");
-        cmd.args(["+nightly", "fuzz", "run", target])
+        // no sanitizer: the crates under test contain no unsafe code; debug assertions + overflow checks are on (and ASan's
+        // shadow memory does not fit under the address-space cap the check script sets)
+        cmd.args(["+nightly", "fuzz", "run", "--sanitizer", "none", target])
             .arg(&corpus)
             .arg("--")
             .arg("-fork=8")
